@@ -32,3 +32,7 @@ PENDING = {
 _p("C05", "other",
    "Static necessary conditions of 'let substitution preserves meaning in the chosen environment': every IR position that can hold a Constant is visited/resolved by LetFiller or RegisterVisitor; the override lookup, keyed by the constant's name, dominates the declared-value return (CFG); per-field information-flow necessity for everything the pass must preserve; IR-constructor arguments that must be objects never receive an S-expression from a visit handler; Parameter objects are not resolved like constants. Decides those clauses for all programs and override dictionaries; does not decide equality of meaning.")
 PENDING.pop("C04", None); PENDING.pop("C05", None)
+
+_p("C09", "other",
+   "Static necessary conditions of 'subcircuit blocks mean prepare_all ... measure_all': the replacement list has the prepare call first and the measure call last around the visited body; the expander constructs no block with subcircuit set and visits every statement container (circuit body, macro bodies); per-field information-flow necessity for block kind, loop fields and all header fields; every entry point that feeds DiscoverSubcircuits applies the same set of normalising passes (call-graph set comparison); control-flow order of the bounding-gate choice. Decides those clauses for all programs; does not decide that execution results are identical.")
+PENDING.pop("C09", None)
